@@ -352,8 +352,10 @@ type World struct {
 	serverSocks map[*simnet.UDPConn]bool
 	// EventDelay[kind] is slept inside that lifecycle callback (virtual time yield point).
 	EventDelay map[string]time.Duration
-	lateDeny map[string]bool
-	newPass  map[string]string // passwords the operator has changed since start ("" = account removed)
+	// NoCountInCallback turns off the AllocationCount call made from allocation callbacks.
+	NoCountInCallback bool
+	lateDeny          map[string]bool
+	newPass           map[string]string // passwords the operator has changed since start ("" = account removed)
 	// EventYield: kinds whose slow callback yields instead of sleeping (SetEventYield).
 	EventYield map[string]bool
 	// OnEvent is called inside each lifecycle callback after recording.
@@ -397,6 +399,11 @@ func (w *World) event(ev LifeEvent) {
 	w.mu.Unlock()
 	if cb0 != nil {
 		cb0(ev)
+	}
+	if (ev.Kind == "alloc+" || ev.Kind == "alloc-") && w.Srv != nil && !w.NoCountInCallback {
+		// applications watch their server drain from these callbacks (Server.AllocationCount is the
+		// documented way): the call must return
+		_ = w.Srv.AllocationCount()
 	}
 	if d > 0 {
 		// In the virtual-time bubble a callback may only sleep where the library holds no mutex:
